@@ -173,6 +173,11 @@ func extractTarDirectory(dirPath, dirName string, r io.Reader, buf []byte, prese
 		if err != nil {
 			return err
 		}
+		if filePathRel == "." && header.Typeflag != tar.TypeDir {
+			// only a directory entry may name the extraction directory itself;
+			// a link there would replace it and redirect all later entries
+			return fmt.Errorf("%q: only a directory entry can be extracted to %q", filename, dirName)
+		}
 		filePath := filepath.Join(dirPath, filePathRel)
 
 		// Create content
